@@ -24,8 +24,8 @@ def plan(tier, seed):
         bspecs, ispecs = [(1, 2), (2, 2), (3, 2), (4, 1), (5, 1), (6, 0)], [(1, 2), (2, 2), (3, 2), (4, 1), (5, 1), (6, 0)]
     else:
         bspecs, ispecs = [(1, 3), (2, 3), (3, 2), (4, 2), (5, 1), (6, 1), (7, 0)], [(1, 3), (2, 3), (3, 2), (4, 2), (5, 2), (6, 1), (7, 0)]
-    chunks = sweep.shape_chunks([s + (False, 2) for s in bspecs], per_chunk=30, kind='binary')
-    chunks += sweep.shape_chunks([s + (True,) for s in ispecs], per_chunk=30, kind='inorder')
+    chunks = sweep.shape_chunks([s + (False, 2) for s in bspecs], per_chunk=30, big=True, kind='binary')
+    chunks += sweep.shape_chunks([s + (True,) for s in ispecs], per_chunk=30, big=True, kind='inorder')
     chunks.append({'kind': 'cli', 'n': 4})
     return {
         'chunks': chunks,
@@ -261,8 +261,11 @@ def check_cli(system, shapes_n):
         if st != 0:
             bad('cli-failed', 'exit status %r %s' % (st, cli.describe(exc)))
             continue
-        with open(dest, encoding='utf-8') as f:
-            text = f.read()
+        try:
+            text = codecs.read_out(dest)
+        except codecs.DecodeError as e:
+            bad('output-encoding', str(e))
+            continue
         os.unlink(dest)
         lines = text.split('\n')
         if lines[-1] != '':
